@@ -28,9 +28,10 @@ def run(ctx, res):
         relobs.obs_rel(ctx, res, args + ["-stream", str(S + k)], label, RULES)
     # F leg on the families whose shapes the rewrites look at (loops followed by X inside iterated bodies, atomic groups,
     # nested quantified groups): the rewritten program must equal the specification's prediction
-    fams = ["body3", "body3g"] if ctx.tier == "quick" else ["body3", "body3g", "grpq", "nested", "atom", "altseq"]
+    fams = ["body3", "body3g", "atomseq"] if ctx.tier == "quick" else ["body3", "body3g", "atomseq", "grpq", "nested", "atom", "altseq"]
     stride = 6 if ctx.tier == "quick" else 1
     findgen.gen_find(ctx, res, fams, [], "net", False, [97, 98, 99], 3, stride, ctx.seed % stride, "F-rewrite-shapes")
+    findgen.gen_find(ctx, res, ["atomseq"], [], "net", False, [97, 98, 10], 4, 2 if ctx.tier == "quick" else 1, ctx.seed % 2 if ctx.tier == "quick" else 0, "F-atomic-lazy-len4")
     res.assumptions += ["TLC and the CommunityModules Json/IOUtils", "the rewrite gates (syntax/verif_on.go) switch off exactly the rewrites C05 names; reductions that are part of parsing (loop coalescing, quantifier multiplication) stay on"]
 
 
